@@ -4,7 +4,7 @@
 Exit 0: the property held on everything explored (known findings are listed, not alarms).
 Exit 1: a line `VIOLATION property=<id> replay=<path>` was printed.
 Exit 2: infrastructure failure (never a verdict)."""
-import sys, time, traceback
+import sys, time, traceback, re
 from common import *
 import gen, replay
 
@@ -106,7 +106,12 @@ def run_trace_check(pid, tier_, execs, relax, oracle=False, level='exploration',
     t0 = time.time()
     wd = workdir(pid)
     run_executions(execs, wd)
-    nlines, rej = validate_executions(execs, wd, relax=relax, oracle=oracle, batch_lines=batch_lines if not oracle else 500)
+    env = None
+    if oracle:   # evaluators with a recorded known deviation are judged against their variant (as in the value checks)
+        kf = os.path.join(wd, 'known.json')
+        json.dump([[k['match']['sol'], k['match']['fn']] for k in KNOWN if k.get('status') == 'known' and 'sol' in k.get('match', {})], open(kf, 'w'))
+        env = {'KNOWN': kf}
+    nlines, rej = validate_executions(execs, wd, relax=relax, oracle=oracle, batch_lines=batch_lines, extra_env=env)
     nviol = report(pid, rej, crashes(execs))
     cov = dict(evaluations=sum(len(e.events) for e in execs), distinct_nontrivial=distinct_nontrivial(execs),
                rule=rule, samples=sample_of(execs), traces_validated_against_impl=len(execs),
@@ -160,8 +165,14 @@ def c11(tier_):
         for p in ('d', 'ld'):
             for _ in range(reps):
                 execs.append(gen.gen_param_store(rng, sol, p, steps=60 if tier_ == 'quick' else 150))
-    return run_trace_check('C11', tier_, execs, relax=('live', 'memo'), level='model_checking',
-        rule='(a) every transition of the 1-handle bounded model (all set/get/init_param/purge/sanity/set_vec/get_vec/display steps with valid and invalid names, marker values, vectors of length 0..2) replayed on the real library; (b) seeded random parameter-store histories on every non-fixture catalogue entry in both precisions (arbitrary finite values incl. the exact marker, invalid names, vectors of length 0..8); every read-back is compared with the specification map by TLC. distinct = distinct (call, arguments) shapes',
+    for e in execs:
+        e.oracle = False       # arbitrary (inadmissible) parameter values: the numeric oracle does not apply
+    # "evaluators use the values last set": parameters set (every one, independently), evaluated, set again,
+    # evaluated again at the same points -- judged by the numeric oracle
+    for sol in ALLVAL:
+        execs.append(gen.gen_values(rng, sol, nassign=2 if tier_ == 'quick' else 6, npts=1))
+    return run_trace_check('C11', tier_, execs, relax=('live', 'memo'), oracle=True, level='model_checking',
+        rule='(a) every transition of the 1-handle bounded model (all set/get/init_param/purge/sanity/set_vec/get_vec/display steps with valid and invalid names, marker values, vectors of length 0..2) replayed on the real library; (b) seeded random parameter-store histories on every non-fixture catalogue entry in both precisions (arbitrary finite values incl. the exact marker, invalid names, vectors of length 0..8); every read-back is compared with the specification map by TLC; (c) on every solution with an oracle every parameter is set, evaluators are called, parameters are set again and the evaluators called at the same points, judged by the numeric oracle (evaluators use the values last set). distinct = distinct (call, arguments) shapes',
         assumptions=COMMON_ASSUME + ['values are either exactly the marker or not within 1e-6 relative of it (the 1e-10 window of sanity_check is not observable)'],
         mc=dict(states=s, transitions=t, distinct_transitions_replayed=nu, exhaustive=True))
 
@@ -169,11 +180,13 @@ def c11(tier_):
 def c10(tier_):
     rng = random.Random(seed())
     execs = []
+    grp = 0
     for sol in NONFIX:
         for _ in range(1 if tier_ == 'quick' else 10):
-            execs.append(gen.gen_purity(rng, sol, nev=10 if tier_ == 'quick' else 20, noise=25 if tier_ == 'quick' else 60))
+            grp += 1
+            execs += gen.gen_purity_pair(rng, sol, grp, nev=6 if tier_ == 'quick' else 20, noise=20 if tier_ == 'quick' else 60)
     return run_trace_check('C10', tier_, execs, relax=('live',), level='exploration',
-        rule='per non-fixture solution: a set of evaluations (provided evaluators, admissible points) is issued, then unrelated calls (other evaluators and arities, other points, other handles incl. a second handle of the same type, the other precision, set_param on another handle, further inits), then the same evaluations again in shuffled order and on the twin handle; the specification memo demands bit-identical results for identical (precision, solution, parameters, overload, arguments) and the sweeps demand unchanged parameters. distinct = distinct (call, arguments) shapes',
+        rule='per non-fixture solution a pair of processes sharing the specification memo: parameters P set, EVERY provided evaluator (plus random extra points) evaluated; unrelated calls (other evaluators and arities, points, handles, the other precision, further inits); some parameters changed (P to P2; for sod_1d only mu), the same evaluations at the same points, parameters restored and the evaluations repeated shuffled; a fresh handle given P2 directly; the twin process runs the phases in reverse order. Masa!Eval memo demands bit-identical results for identical (precision, solution, parameters, overload, arguments) across all of it, and the sweeps demand unchanged parameters. distinct = distinct (call, arguments) shapes',
         assumptions=COMMON_ASSUME)
 
 
@@ -213,11 +226,12 @@ def c16(tier_):
     execs += replay.build_executions(edges, walks, cx, 'exit', sweep_every=0, rng=rng)
     st += s; tr += t; uniq += nu
     # exception build: the walk continues after every caught failure, with a full sweep right after it
-    s, t, edges, _ = replay.explore(replay.mc_cfg(('d', 'ld') if tier_ == 'thorough' else ('d',), ('h1', 'h2') if tier_ == 'quick' else ('h1',)), 'exc')
-    walks, nu = replay.cover_walks(edges)
-    cx = replay.Concrete(rng, apij)
-    execs += replay.build_executions(edges, walks, cx, 'exc', sweep_every=40, rng=rng, sweep_after_fatal=0.25)
-    st += s; tr += t; uniq += nu
+    for cfg in ([replay.mc_cfg(('d',), ('h1', 'h2')), replay.mc_cfg(('d', 'ld'), ('h1',))]):
+        s, t, edges, _ = replay.explore(cfg, 'exc')
+        walks, nu = replay.cover_walks(edges)
+        cx = replay.Concrete(rng, apij)
+        execs += replay.build_executions(edges, walks, cx, 'exc', sweep_every=40, rng=rng, sweep_after_fatal=0.25)
+        st += s; tr += t; uniq += nu
     return run_trace_check('C16', tier_, execs, relax=('live', 'memo'), level='model_checking',
         rule='every transition of the bounded model in the exit() build (each fatal transition in its own process: exit status, diagnostics and the absence of any later effect are observed) and in the exception build (caught int, then sweeps, then the walk continues in the same process). distinct = distinct (call, arguments) shapes',
         assumptions=COMMON_ASSUME, mc=dict(states=st, transitions=tr, distinct_transitions_replayed=uniq, exhaustive=True),
@@ -235,7 +249,7 @@ def c17(tier_):
         execs += replay.build_executions(edges, walks, cx, 'exc', sweep_every=40, rng=rng, apis=('cxx', 'c'))
     for sol in NONFIX:
         for _ in range(1 if tier_ == 'quick' else 6):
-            execs.append(gen.gen_purity(rng, sol, apis=('cxx', 'c'), nev=12, noise=10))
+            execs.append(gen.gen_purity(rng, sol, apis=('cxx', 'c'), nev=8, noise=10)[0])
             execs.append(gen.gen_param_store(rng, sol, 'd', apis=('cxx', 'c'), steps=40))
     execs.append(gen.gen_c_entry_points(rng))
     return run_trace_check('C17', tier_, execs, relax=('live',), level='model_checking',
@@ -378,7 +392,66 @@ def c20(tier_):
         assumptions=VAL_ASSUME, extra_cov=lambda ex: dict(pairs=sum(1 for e in ex for ev in e.events if ev.get('pair')) // 2))
 
 
-CHECKS = {'C01': c01, 'C02': c02, 'C03': c03, 'C04': c04, 'C05': c05, 'C06': c06, 'C07': c07, 'C08': c08, 'C09': c09, 'C20': c20, 'C10': c10, 'C11': c11, 'C12': c12, 'C14': c14, 'C15': c15, 'C16': c16, 'C17': c17}
+def c13(tier_):
+    rng = random.Random(seed())
+    t0 = time.time()
+    names = [e['name'] for e in CATALOG]
+    bases = rng.sample(range(1, len(CATALOG) + 1), 3 if tier_ == 'quick' else 12)
+    wd0 = workdir('c13mc')
+    cfg = os.path.join(wd0, 'names.cfg')
+    open(cfg, 'w').write('SPECIFICATION Spec\nCONSTANTS\n  Bases = {%s}\n  MaxRun = %d\n  Emit = TRUE\nINVARIANTS DecorationsResolve NegativesDiffer EmitString\nCHECK_DEADLOCK FALSE\n'
+                         % (', '.join(map(str, bases)), 2 if tier_ == 'quick' else 3))
+    rc, out = mk.tlc('MC_Names.tla', cfg, SPEC, workers=8, timeout=3000, heap='8g')
+    if 'No error has been found' not in out:
+        raise InfraError('MC_Names failed:\n' + out[-2000:])
+    m = re.search(r'(\d+) states generated, (\d+) distinct states found', out)
+    nstates = int(m.group(2))
+    strings = []
+    for line in out.splitlines():
+        if line.startswith('<<"NAME", '):
+            d = json.loads(json.loads(line[len('<<"NAME", '):-2]))
+            strings.append((''.join(chr(c) for c in d['str']), bool(d['expect']), d['kind']))
+    shutil.rmtree(wd0, ignore_errors=True)
+    # random decorations of every catalogue name: runs of up to 4 separators in any number of gaps, random case
+    def decorate(n):
+        out_ = ''
+        for ch in n:
+            if rng.random() < 0.3:
+                out_ += ''.join(rng.choice('- ') for _ in range(rng.randint(1, 4)))
+            out_ += ch.upper() if rng.random() < 0.4 else ch
+        if rng.random() < 0.3:
+            out_ += ''.join(rng.choice('- ') for _ in range(rng.randint(1, 4)))
+        return out_
+    for n in names:
+        for _ in range(4 if tier_ == 'quick' else 40):
+            strings.append((decorate(n), True, 'random'))
+        strings.append((n + rng.choice('_.x1'), False, 'random-negative'))
+        strings.append((n[:-1], False, 'prefix'))
+    rng.shuffle(strings)
+    execs = []
+    chunk = 400
+    for i in range(0, len(strings), chunk):
+        S = [['init', 'd', 'cxx', 'keep', 'euler_1d']]
+        for j, (st, ok, kind) in enumerate(strings[i:i + chunk]):
+            p = 'ld' if j % 5 == 4 else 'd'
+            S.append(['init', p, 'cxx', 'h', st])
+            if ok:
+                S.append(['name', p, 'cxx'])
+            elif j % 3 == 0:
+                S.append(['list', p, 'cxx'])
+        S.append(['list', 'd', 'cxx']); S.append(['list', 'ld', 'cxx'])
+        execs.append(Execution(S, variant='exc', label='names'))
+    # a sample of the negatives in the exit() build: the process must end with status 1 and register nothing
+    neg = [s for s in strings if not s[1]]
+    for st, ok, kind in neg[:60 if tier_ == 'quick' else 600]:
+        execs.append(Execution([['init', 'd', 'cxx', 'keep', 'euler_1d'], ['init', 'd', 'cxx', 'h', st]], variant='exit', label='negative-exit'))
+    return run_trace_check('C13', tier_, execs, relax=('live', 'memo'), level='model_checking',
+        rule='TLC enumerates, for the sampled base names, every insertion of separator runs (length <= 2 quick / 3 thorough, over {-, blank}) into at most two gaps incl. leading/trailing, x 4 case masks, and every single-character insertion/deletion/substitution negative; plus random decorations (runs <= 4 in any number of gaps, random case) and negatives of all catalogue names; each string is passed to masa_init in both precisions and the outcome (success + get_name, or fatal + unchanged list) is validated by Masa!Init / Resolve. distinct = distinct strings',
+        assumptions=COMMON_ASSUME, mc=dict(states=nstates, transitions=nstates, exhaustive=True),
+        extra_cov=lambda ex: dict(strings=len(strings), decorations=sum(1 for s in strings if s[1]), negatives=sum(1 for s in strings if not s[1])))
+
+
+CHECKS = {'C13': c13, 'C01': c01, 'C02': c02, 'C03': c03, 'C04': c04, 'C05': c05, 'C06': c06, 'C07': c07, 'C08': c08, 'C09': c09, 'C20': c20, 'C10': c10, 'C11': c11, 'C12': c12, 'C14': c14, 'C15': c15, 'C16': c16, 'C17': c17}
 
 
 def main():
